@@ -1612,7 +1612,7 @@ def d7_case(ctx, idx, st):
         # check_scope: membership is tested with the recorded name itself
         cs = idx.func(ME + '.check_scope')
         seen = 0
-        cs_nodes = list(walk_own(cs.node)) + [n for root in _unrolled_rows(cs.node) for n in ast.walk(root)]
+        cs_nodes = list(walk_own(cs.node)) + [n for root in _unrolled_rows(cs.node, idx, cs) for n in ast.walk(root)]
         for comp in [n for n in cs_nodes if isinstance(n, (ast.GeneratorExp, ast.ListComp, ast.SetComp))]:
             if len(comp.generators) != 1:
                 continue
@@ -1682,15 +1682,63 @@ def d7_case(ctx, idx, st):
             r.undecided('check_scope: %s' % k, 'no membership test of self.%s against `%s` recognised' % (k, SCOPE[k]), cs.loc)
 
 
-def _unrolled_rows(fn):
+class _Fold(ast.NodeTransformer):
+    """getattr(x, 'name') -> x.name ; (a, b, c)[1] -> b"""
+
+    def visit_Call(self, node):
+        self.generic_visit(node)
+        if isinstance(node.func, ast.Name) and node.func.id == 'getattr' and len(node.args) == 2 and not node.keywords \
+                and isinstance(node.args[1], ast.Constant) and isinstance(node.args[1].value, str):
+            return ast.copy_location(ast.Attribute(value=node.args[0], attr=node.args[1].value, ctx=ast.Load()), node)
+        return node
+
+    def visit_Subscript(self, node):
+        self.generic_visit(node)
+        if isinstance(node.value, (ast.Tuple, ast.List)) and isinstance(node.slice, ast.Constant) and isinstance(node.slice.value, int) \
+                and not isinstance(node.slice.value, bool) and -len(node.value.elts) <= node.slice.value < len(node.value.elts):
+            return node.value.elts[node.slice.value]
+        return node
+
+
+def _literal_table(idx, fi, expr, env):
+    """The literal table (List/Tuple display of rows) an expression denotes: a display, a local bound to one, a class-level
+    attribute `self.T` / `Class.T`, or a call `self.m(args)` of a method whose body just returns a display."""
+    from ..effects import map_args
+    if isinstance(expr, ast.Name):
+        expr = env.get(expr.id)
+    if isinstance(expr, (ast.List, ast.Tuple)):
+        return expr
+    if isinstance(expr, ast.Attribute) and isinstance(expr.value, ast.Name) and fi is not None and fi.cls is not None \
+            and expr.value.id in (fi.params[0] if fi.params else None, fi.cls.name):
+        k, v = idx.lookup_attr(fi.cls, expr.attr)
+        if isinstance(v, (ast.List, ast.Tuple)):
+            return v
+    if isinstance(expr, ast.Call) and isinstance(expr.func, ast.Attribute) and isinstance(expr.func.value, ast.Name) \
+            and fi is not None and fi.cls is not None and fi.params and expr.func.value.id in (fi.params[0], fi.cls.name):
+        m = idx.lookup(fi.cls, expr.func.attr)
+        if m is not None:
+            body = [s_ for s_ in m.node.body if not (isinstance(s_, ast.Expr) and isinstance(s_.value, ast.Constant))]
+            amap = {p_: a for p_, a in map_args(m, expr).items() if a is not None}
+            if len(body) == 1 and isinstance(body[0], ast.Return) and isinstance(body[0].value, (ast.List, ast.Tuple)):
+                return nf.subst(body[0].value, amap)
+            if body and all(isinstance(s_, ast.Expr) and isinstance(s_.value, ast.Yield) and s_.value.value is not None for s_ in body):
+                # a generator that yields its rows one after the other, in straight line
+                rows = ast.List(elts=[s_.value.value for s_ in body], ctx=ast.Load())
+                ast.copy_location(rows, body[0])
+                return nf.subst(rows, amap)
+    return None
+
+
+def _unrolled_rows(fn, idx=None, fi=None):
     """For every `for a, b, ... in <literal table of tuples>` of fn: the loop body once per row, with the loop variables
-    replaced by the row's entries (a loop over an ordered literal table is a closed form of the repeated blocks)."""
+    replaced by the row's entries, simple locals of the body substituted forward and `getattr(x, 'n')` / `(a, b)[i]` folded
+    (a loop over an ordered literal table is a closed form of the repeated blocks)."""
     out = []
     env = lib.local_env(fn)
+    fold = _Fold()
     for loop in [n for n in walk_own(fn) if isinstance(n, ast.For)]:
-        table = loop.iter
-        if isinstance(table, ast.Name):
-            table = env.get(table.id)
+        table = _literal_table(idx, fi, loop.iter, env) if idx is not None else (
+            env.get(loop.iter.id) if isinstance(loop.iter, ast.Name) else loop.iter)
         if not isinstance(table, (ast.List, ast.Tuple)) or not table.elts:
             continue
         tgt = loop.target
@@ -1711,9 +1759,16 @@ def _unrolled_rows(fn):
                 break
         if not rows:
             continue
+        outer = {k: v for k, v in env.items() if isinstance(v, (ast.Tuple, ast.List, ast.Name, ast.Attribute))}
         for renv in rows:
+            env2 = dict(outer)
+            env2.update(renv)
             for s_ in loop.body:
-                out.append(nf.subst(s_, renv))
+                st_ = fold.visit(nf.subst(s_, env2))
+                ast.fix_missing_locations(st_)
+                if isinstance(st_, ast.Assign) and len(st_.targets) == 1 and isinstance(st_.targets[0], ast.Name):
+                    env2[st_.targets[0].id] = st_.value
+                out.append(st_)
     return out
 
 
@@ -1948,5 +2003,17 @@ BENIGN = [
         ("    def parse(self, expression):", "    def _parse_uncached(self, expression, stripped):\n        try:\n            return self.raw_parse(stripped)\n"
          "        except ParseException:\n            msg = \"Invalid Input: Could not parse '{}' as a formula\"\n            raise UnableToParse(msg.format(expression))\n\n"
          "    def parse(self, expression):"),
+    ], None),
+    Benign('sum-operations-from-an-ordered-table', EXPR,
+           "            if op == '+':\n                result = result + num\n            elif op == '-':\n                result = result - num\n"
+           "            else:\n                raise CalcError(\"Unexpected symbol {} in eval_sum\".format(op))",
+           "            combine = next((f for sym, f in (('+', lambda a, b: a + b), ('-', lambda a, b: a - b)) if op == sym), None)\n"
+           "            if combine is None:\n                raise CalcError(\"Unexpected symbol {} in eval_sum\".format(op))\n"
+           "            result = combine(result, num)"),
+    Benign('check-scope-rows-from-a-class-table', EXPR, [
+        ("        bad_vars = set(var for var in self.variables_used if var not in variables)\n        if bad_vars:",
+         "        for attribute, index in self._scope_rows:\n            scope = (variables, functions, suffixes)[index]\n"
+         "            bad_vars = set(var for var in getattr(self, attribute) if var not in scope)\n        if bad_vars:"),
+        ("    def check_scope(self, variables, functions, suffixes):", "    _scope_rows = (('variables_used', 0),)\n\n    def check_scope(self, variables, functions, suffixes):"),
     ], None),
 ]
